@@ -27,29 +27,19 @@ theorem countFullDecimal_le (l : Bytes) : countFullDecimal l ≤ l.length := by
   · omega
   · exact countWhile_le _ _
 
-theorem decNumberRest_le (r : Bytes) : decNumberRest r ≤ r.length := by
-  unfold decNumberRest
-  simp only
-  have h1 := countWhile_le isDecimalByte r
-  generalize hn1 : countDecimal r = n1
-  have h1' : n1 ≤ r.length := by rw [← hn1]; exact h1
-  generalize hr1 : r.drop n1 = r1
-  have hl1 : r1.length = r.length - n1 := by rw [← hr1]; simp
-  -- fractional part
-  have h2 : (match r1 with
-      | 0x2E :: r2 => if countFullDecimal r2 > 0 then 1 + countFullDecimal r2 else 0
+theorem fracLen_le (r1 : Bytes) :
+    (match r1 with
+      | 0x2E :: r2 => let f := countFullDecimal r2; if f > 0 then 1 + f else 0
       | _ => 0) ≤ r1.length := by
-    split
-    · rename_i r2
-      have := countFullDecimal_le r2
-      split <;> simp <;> omega
-    · omega
-  generalize hn2 : (match r1 with
-      | 0x2E :: r2 => if countFullDecimal r2 > 0 then 1 + countFullDecimal r2 else 0
-      | _ => 0) = n2 at h2
-  generalize hr3 : r1.drop n2 = r3
-  have hl3 : r3.length = r1.length - n2 := by rw [← hr3]; simp
-  have h3 : (match r3 with
+  split
+  · rename_i r2
+    have := countFullDecimal_le r2
+    simp only [List.length_cons]
+    split <;> omega
+  · omega
+
+theorem expLen_le (r3 : Bytes) :
+    (match r3 with
       | b :: r4 =>
         if b == 0x65 || b == 0x45 then
           match r4 with
@@ -57,18 +47,29 @@ theorem decNumberRest_le (r : Bytes) : decNumberRest r ≤ r.length := by
           | [] => 1
         else 0
       | [] => 0) ≤ r3.length := by
+  split
+  · rename_i b r4
     split
-    · rename_i b r4
-      split
-      · split
-        · rename_i s r5
-          have h5 := countFullDecimal_le r5
-          have h4 := countFullDecimal_le (s :: r5)
-          split <;> simp at * <;> omega
-        · simp
-      · omega
+    · split
+      · rename_i s r5
+        have h5 := countFullDecimal_le r5
+        have h4 := countFullDecimal_le (s :: r5)
+        simp only [List.length_cons] at *
+        split <;> omega
+      · simp
     · omega
+  · omega
+
+theorem three_parts_le (r : Bytes) (n1 : Nat) (f g : Bytes → Nat) (h1 : n1 ≤ r.length)
+    (hf : ∀ l, f l ≤ l.length) (hg : ∀ l, g l ≤ l.length) :
+    n1 + f (r.drop n1) + g ((r.drop n1).drop (f (r.drop n1))) ≤ r.length := by
+  have h2 := hf (r.drop n1)
+  have h3 := hg ((r.drop n1).drop (f (r.drop n1)))
+  simp only [List.length_drop] at h2 h3
   omega
+
+theorem decNumberRest_le (r : Bytes) : decNumberRest r ≤ r.length :=
+  three_parts_le r (countDecimal r) _ _ (countWhile_le _ _) fracLen_le expLen_le
 
 theorem asmNumberRest_le (first : UInt8) (r : Bytes) : (asmNumberRest first r).1 ≤ r.length := by
   unfold asmNumberRest
@@ -100,5 +101,202 @@ theorem asmTextLiteralRest_le (r : Bytes) : (asmTextLiteralRest r).1 ≤ r.lengt
     rw [asmTextLiteralRest]
     · simp only [hnl, List.length_cons]; simp; omega
     all_goals (first | exact h1 | exact h2 | exact h3 | skip)
+
+end Pasfmt
+
+namespace Pasfmt
+
+/-! ### text literals -/
+
+def ParseState.n : ParseState → Nat
+  | .cont n => n
+  | .stop n => n
+  | .unterminated n => n
+
+theorem consumePascalStr_le (l : Bytes) : (consumePascalStr l).n ≤ l.length := by
+  unfold consumePascalStr
+  split
+  · rename_i r
+    split
+    · simp [ParseState.n]
+    · split
+      · rename_i pos hpos
+        have := findIdx_lt _ _ _ hpos
+        split <;> simp [ParseState.n] <;> omega
+      · simp [ParseState.n]; omega
+  · simp [ParseState.n]
+
+theorem consumePascalStr_pos (r : Bytes) : 1 ≤ (consumePascalStr (0x27 :: r)).n := by
+  unfold consumePascalStr
+  simp only
+  split
+  · simp [ParseState.n]
+  · split
+    · split <;> simp [ParseState.n] <;> omega
+    · simp [ParseState.n]
+
+def sumN : Sum Nat Nat → Nat
+  | .inl n => n
+  | .inr n => n
+
+theorem consumeOneEscape_bounds (a : Bytes) : 1 ≤ sumN (consumeOneEscape a) ∧ sumN (consumeOneEscape a) ≤ 1 + a.length := by
+  unfold consumeOneEscape
+  split
+  · rename_i b r
+    have hd := countWhile_le isDecimalByte r
+    have hh := countWhile_le isHexByte r
+    have hb := countWhile_le isBinaryByte r
+    unfold countDecimal countHex countBinary
+    simp only [List.length_cons]
+    split
+    · simp [sumN]; omega
+    · split
+      · split
+        · simp [sumN]; omega
+        · rename_i c hc; simp [sumN]; omega
+      · split
+        · split
+          · simp [sumN]; omega
+          · simp [sumN]; omega
+        · simp [sumN]
+  · simp [sumN]
+
+theorem consumeEscapedChars_le (fuel : Nat) (l : Bytes) : (consumeEscapedChars fuel l).n ≤ l.length := by
+  induction fuel generalizing l with
+  | zero => simp [consumeEscapedChars, ParseState.n]
+  | succ k ih =>
+    unfold consumeEscapedChars
+    split
+    · rename_i r
+      have hb := consumeOneEscape_bounds r
+      split
+      · rename_i n hn
+        rw [hn] at hb; simp [sumN] at hb
+        have hrec := ih ((0x23 :: r).drop n)
+        simp only [List.length_drop, List.length_cons] at hrec
+        split <;> rename_i m hm <;> rw [hm] at hrec <;> simp [ParseState.n] at * <;> omega
+      · rename_i n hn
+        rw [hn] at hb; simp [sumN] at hb
+        simp [ParseState.n]; omega
+    · simp [ParseState.n]
+
+theorem consumeEscapedChars_pos (fuel : Nat) (r : Bytes) : 1 ≤ (consumeEscapedChars (fuel + 1) (0x23 :: r)).n := by
+  unfold consumeEscapedChars
+  simp only
+  have hb := consumeOneEscape_bounds r
+  split
+  · rename_i n hn
+    rw [hn] at hb; simp [sumN] at hb
+    split <;> simp [ParseState.n] <;> omega
+  · rename_i n hn
+    rw [hn] at hb; simp [sumN] at hb
+    simp [ParseState.n]; omega
+
+theorem textLiteralLoop_le (fuel : Nat) (l : Bytes) : (textLiteralLoop fuel l).1 ≤ l.length := by
+  induction fuel generalizing l with
+  | zero => simp [textLiteralLoop]
+  | succ k ih =>
+    unfold textLiteralLoop
+    have he := consumeEscapedChars_le (l.length + 1) l
+    split
+    · rename_i n hn; rw [hn] at he; simpa [ParseState.n] using he
+    · rename_i n hn; rw [hn] at he; simpa [ParseState.n] using he
+    · rename_i n hn
+      rw [hn] at he; simp only [ParseState.n] at he
+      have hp := consumePascalStr_le (l.drop n)
+      simp only [List.length_drop] at hp
+      simp only []
+      split
+      · rename_i m hm; rw [hm] at hp; simp only [ParseState.n] at hp; simp only; omega
+      · rename_i m hm; rw [hm] at hp; simp only [ParseState.n] at hp; simp only; omega
+      · rename_i m hm
+        rw [hm] at hp; simp only [ParseState.n] at hp
+        have hrec := ih ((l.drop n).drop m)
+        simp only [List.length_drop] at hrec
+        simp only
+        omega
+
+end Pasfmt
+
+namespace Pasfmt
+
+theorem consumeEscapedChars_nohash (fuel : Nat) (l : Bytes) (h : ∀ r, l ≠ 0x23 :: r) :
+    consumeEscapedChars fuel l = .cont 0 := by
+  cases fuel with
+  | zero => simp [consumeEscapedChars]
+  | succ k =>
+    unfold consumeEscapedChars
+    split
+    · rename_i r; exact absurd rfl (h r)
+    · rfl
+
+/-- a literal that starts with `'` or `#` consumes at least one byte -/
+theorem textLiteralLoop_pos (fuel : Nat) (b : UInt8) (r : Bytes) (hb : b = 0x27 ∨ b = 0x23) :
+    1 ≤ (textLiteralLoop (fuel + 1) (b :: r)).1 := by
+  unfold textLiteralLoop
+  rcases hb with rfl | rfl
+  · rw [consumeEscapedChars_nohash _ _ (by intro r' h; simp at h)]
+    simp only [List.drop_zero]
+    have hp := consumePascalStr_pos r
+    split
+    · rename_i m hm; rw [hm] at hp; simpa [ParseState.n] using hp
+    · rename_i m hm; rw [hm] at hp; simpa [ParseState.n] using hp
+    · rename_i m hm; rw [hm] at hp; simp only [ParseState.n] at hp; simp only; omega
+  · have hp := consumeEscapedChars_pos (r.length + 1) r
+    simp only [List.length_cons]
+    split
+    · rename_i n hn; rw [hn] at hp; simpa [ParseState.n] using hp
+    · rename_i n hn; rw [hn] at hp; simpa [ParseState.n] using hp
+    · rename_i n hn
+      rw [hn] at hp; simp only [ParseState.n] at hp
+      split <;> simp only <;> omega
+
+theorem textLiteral_le (l : Bytes) : (textLiteral l).1 ≤ l.length := by
+  unfold textLiteral
+  simp only []
+  repeat' split
+  all_goals first
+    | exact textLiteralLoop_le _ _
+    | (rename_i pos hpos
+       have := findSub_le _ _ _ hpos
+       have hq := countWhile_le (· == 0x27) l
+       simp only [List.length_take, List.length_drop] at this
+       simp only
+       omega)
+    | simp
+
+theorem textLiteral_pos (b : UInt8) (r : Bytes) (hb : b = 0x27 ∨ b = 0x23) : 1 ≤ (textLiteral (b :: r)).1 := by
+  unfold textLiteral
+  simp only []
+  repeat' split
+  all_goals first
+    | exact textLiteralLoop_pos _ b r hb
+    | (simp only [List.length_cons]; omega)
+    | (simp_all; done)
+    | (simp_all; omega)
+
+/-! ### comments and directives -/
+
+theorem findBlockCommentEnd_le (k : BlockCommentKind) (l : Bytes) (e : Nat)
+    (h : findBlockCommentEnd k l = some e) : 1 ≤ e ∧ e ≤ l.length := by
+  unfold findBlockCommentEnd at h
+  cases k with
+  | parenStar =>
+    simp only [Option.map_eq_some_iff] at h
+    obtain ⟨p, hp, rfl⟩ := h
+    have := findSub_le _ _ _ hp
+    simp at this; omega
+  | brace =>
+    simp only [Option.map_eq_some_iff] at h
+    obtain ⟨p, hp, rfl⟩ := h
+    have := findByte_lt _ _ _ hp
+    omega
+
+theorem blockCommentEndOrEof_le (k : BlockCommentKind) (trim : Nat) (l : Bytes) :
+    blockCommentEndOrEof k trim l ≤ l.length := by
+  unfold blockCommentEndOrEof
+  split
+  · rename_i e he; exact (findBlockCommentEnd_le k l e he).2
+  · omega
 
 end Pasfmt
